@@ -42,6 +42,21 @@ Section Assoc.
       + exact IH.
   Qed.
 
+  Lemma lookup_remove_neq k k' m : k' <> k -> lookup k' (remove k m) = lookup k' m.
+  Proof.
+    intro Hn. induction m as [|[k0 v0] m IH]; [reflexivity|]. unfold remove in *. cbn.
+    destruct (str_eqb k0 k) eqn:E; cbn.
+    - rewrite lookup_cons. apply str_eqb_spec in E. subst k0.
+      rewrite str_eqb_sym, (str_eqb_neq _ _ Hn). exact IH.
+    - rewrite !lookup_cons. now rewrite IH.
+  Qed.
+
+  Lemma lookup_insert_neq k k' v m : k' <> k -> lookup k' (insert k v m) = lookup k' m.
+  Proof.
+    intro Hn. unfold insert. rewrite lookup_cons, str_eqb_sym, (str_eqb_neq _ _ Hn).
+    now apply lookup_remove_neq.
+  Qed.
+
   Lemma lookup_insert_eq k v m : lookup k (insert k v m) = Some v.
   Proof. unfold insert. now rewrite lookup_cons, str_eqb_refl. Qed.
 
@@ -216,11 +231,8 @@ Section Refine.
   Qed.
 
   (* ---- invariant of reachable registry states ---- *)
-  Definition sinv (st : store) : Prop :=
-    (forall d mt c, lookup d (t_mans st) = Some (mt, c) ->
-        d = H c /\ sub_ok subject_of p c /\ parse_mt mt = Some mt /\ len c <= limit) /\
-    (forall d c, lookup d (t_other st) = Some c -> d = H c).
-  Definition inv (g : reg) : Prop := sinv (store_of g).
+  Notation sinv := (sinv H parse_mt subject_of limit p).
+  Notation inv := (inv H parse_mt subject_of limit p).
 
   Lemma man_lookup_store g rf :
     man_lookup (store_of g) rf =
@@ -1008,6 +1020,136 @@ Section Refine.
     rewrite E. intro X. injection X as <- <-. auto.
   Qed.
 
+  (* ---------- the referrers tag schema: an indexed referrer is found again ---------- *)
+  (* Registry without the Referrers API (or a client told so).  The referrers tag of [subj] is
+     absent or points to an index the client wrote before (gen_index l).  After
+     updateReferrersIndex(subj, add r) -- what Push of a manifest with that subject does --
+     Predecessors over the tag schema lists the old referrers and r.  Hypotheses: JSON round
+     trip of an index, a registry the tag can be resolved against (Docker-Content-Digest or
+     Content-Length present: the known finding otherwise), no digest collision between the old
+     and the new index, the new index within MaxMetadataBytes. *)
+  Hypothesis Hjson : forall l, index_of (gen_index l) = Some l.
+  Hypothesis Hidx_subj : forall l, subject_of (gen_index l) = Some None.
+  Hypothesis Hidx_mt : parse_mt mt_index = Some mt_index.
+
+  Lemma rfi_on_index g n tag od l :
+    inv g -> resolve_ref main tag = Some tag -> valid_digest tag = false ->
+    index_state g tag (Some (od, l)) -> (p_clen p = true \/ p_dighdr p = true) ->
+    exists n' t, referrers_from_index H parse_mt main user_mts limit index_of S ex0 (g, n) tag
+                 = ((g, n'), t, ROk, Some (mkDesc mt_index od (len (gen_index l)), l)).
+  Proof.
+    intros Hi ER Vt [Lt Lm] Hp. pose proof Hi as [I _]. destruct (I _ _ _ Lm) as (Hd & _ & _ & Hlim).
+    assert (ML : man_lookup (store_of g) tag = Some (od, (mt_index, gen_index l))).
+    { rewrite man_lookup_store. unfold man_digest. rewrite Vt, Lt, Lm. reflexivity. }
+    assert (Hp' : p_clen p = true \/ p_dighdr p = true \/ valid_digest tag = true) by tauto.
+    destruct (man_fetchref_hit g n tag tag od mt_index (gen_index l) Hi ER ML Hp') as (n' & t & E).
+    unfold referrers_from_index. rewrite E. cbn [d_sz d_dg].
+    assert (El : (limit <? len (gen_index l)) = false) by (apply N.ltb_ge; exact Hlim).
+    rewrite El, N.eqb_refl, <- Hd, str_eqb_refl, andb_false_r, Hjson. eauto.
+  Qed.
+
+  Lemma rfi_no_index g n tag :
+    resolve_ref main tag = Some tag -> valid_digest tag = false -> index_state g tag None ->
+    exists t, referrers_from_index H parse_mt main user_mts limit index_of S ex0 (g, n) tag
+              = ((g, n + 1), t, RErr ENotFound, None).
+  Proof.
+    intros ER Vt Lt. cbn in Lt.
+    assert (ML : man_lookup (store_of g) tag = None).
+    { rewrite man_lookup_store. unfold man_digest. now rewrite Vt, Lt. }
+    destruct (man_fetchref_miss g n tag tag ER ML) as (t & E).
+    unfold referrers_from_index. rewrite E. eauto.
+  Qed.
+
+  Theorem tag_schema_add_then_listed g n rst subj old r :
+    inv g -> rst_ok rst ->
+    valid_digest (d_dg subj) = true ->
+    let tag := ref_tag (d_dg subj) in
+    resolve_ref main tag = Some tag -> valid_digest tag = false ->
+    (p_clen p = true \/ p_dighdr p = true) ->
+    index_state g tag old ->
+    let l := match old with Some (_, l) => l | None => [] end in
+    let upd := clean_refs [] l ++ [r] in
+    existsb (desc_eqb r) (clean_refs [] l) = false ->
+    len (gen_index upd) <= limit ->
+    (skip_gc = true \/ forall od l0, old = Some (od, l0) -> od <> H (gen_index upd)) ->
+    exists g' n' t,
+      update_referrers_index H parse_mt main user_mts limit skip_gc index_of S ex0 (g, n) rst subj (RAdd r)
+      = ((g', n'), rst, t, ROk) /\
+      inv g' /\
+      index_state g' tag (Some (H (gen_index upd), upd)) /\
+      exists n'' t', tag_schema_referrers H parse_mt main user_mts limit index_of S ex0 (g', n') subj
+                     = ((g', n''), t', RDescs (clean_refs [] upd)).
+  Proof.
+    intros Hi Hr Vs tag ER Vt Hp Hst l upd Hnew Hlim Hcol.
+    set (j := gen_index upd).
+    assert (Vtag : valid_ref tag = true) by (eapply resolve_ref_valid; eauto).
+    (* 1. read the old index *)
+    assert (Hrfi : exists n1 t1 res1 o1,
+               referrers_from_index H parse_mt main user_mts limit index_of S ex0 (g, n) tag = ((g, n1), t1, res1, o1) /\
+               match old with
+               | Some (od, l0) => res1 = ROk /\ o1 = Some (mkDesc mt_index od (len (gen_index l0)), l0)
+               | None => res1 = RErr ENotFound /\ o1 = None
+               end).
+    { destruct old as [[od l0]|].
+      - destruct (rfi_on_index g n tag od l0 Hi ER Vt Hst Hp) as (n1 & t1 & E). eauto 10.
+      - destruct (rfi_no_index g n tag ER Vt Hst) as (t1 & E). eauto 10. }
+    destruct Hrfi as (n1 & t1 & res1 & o1 & E1 & Hold).
+    (* 2. write the new index under the tag *)
+    assert (Sj : sub_ok j) by (left; apply Hidx_subj).
+    destruct (man_put_exec g n1 rst (mkDesc mt_index (H j) (len j)) j true tag Vtag eq_refl eq_refl Sj Hr (Hvalid j))
+      as (g2 & n2 & t2 & E2 & St2).
+    cbn [d_dg d_mt] in E2, St2. unfold put_manifest in E2, St2. rewrite Vt in E2, St2. cbn [fst snd] in E2, St2.
+    assert (Hrst : rst_of ROk rst j = rst).
+    { cbn [rst_of]. unfold rst_after, j. now rewrite Hidx_subj. }
+    rewrite Hrst in E2.
+    assert (Hi2 : inv g2).
+    { unfold inv. rewrite St2. apply sinv_insert_man; auto. }
+    assert (Lm2 : lookup (H j) (g_mans g2) = Some (mt_index, j)).
+    { change (g_mans g2) with (t_mans (store_of g2)). rewrite St2. cbn [t_mans]. apply lookup_insert_eq. }
+    assert (Lt2 : lookup tag (g_tags g2) = Some (H j)).
+    { change (g_tags g2) with (t_tags (store_of g2)). rewrite St2. cbn [t_tags]. apply lookup_insert_eq. }
+    unfold update_referrers_index. rewrite Vs. cbn [negb]. fold tag. rewrite E1.
+    destruct old as [[od l0]|].
+    - (* an old index *)
+      destruct Hold as [-> ->]. destruct Hst as [Lt Lm]. subst l. cbn beta iota in *.
+      unfold apply_change. rewrite Hnew. fold upd. fold j.
+      assert (Enil : negb (is_nil upd) = true) by (unfold upd; destruct (clean_refs [] l0); reflexivity).
+      rewrite Enil. cbn [orb]. rewrite E2.
+      destruct skip_gc eqn:Eg.
+      + exists g2, n2, (t1 ++ t2). split; [reflexivity|]. split; [exact Hi2|]. split; [split; assumption|].
+        destruct (rfi_on_index g2 n2 tag (H j) upd Hi2 ER Vt (conj Lt2 Lm2) Hp) as (n3 & t3 & E3).
+        unfold tag_schema_referrers. rewrite Vs. cbn [negb]. fold tag. rewrite E3. eauto.
+      + destruct Hcol as [X|Hcol]; [discriminate|]. specialize (Hcol od l0 eq_refl).
+        assert (Lod : lookup od (g_mans g2) = Some (mt_index, gen_index l0)).
+        { change (g_mans g2) with (t_mans (store_of g2)). rewrite St2. cbn [t_mans].
+          rewrite lookup_insert_neq by exact Hcol. exact Lm. }
+        pose proof Hi as [I _]. destruct (I _ _ _ Lm) as (Hod & _).
+        destruct (delete_man_hit g2 n2 (mkDesc mt_index od (len (gen_index l0))) _ Lod
+                    ltac:(cbn [d_dg]; rewrite Hod; apply Hvalid)) as (g3 & t3 & E3 & St3).
+        cbn [d_dg] in E3, St3. rewrite E3.
+        assert (Hi3 : inv g3).
+        { unfold inv. rewrite St3. destruct Hi2 as [I2 Io2]. split; cbn [t_mans t_other]; [|exact Io2].
+          intros d' mt' c' L. apply lookup_remove_inv in L as [L _]. eauto. }
+        assert (Lm3 : lookup (H j) (g_mans g3) = Some (mt_index, j)).
+        { change (g_mans g3) with (t_mans (store_of g3)). rewrite St3. cbn [t_mans].
+          rewrite lookup_remove_neq by (intro X; apply Hcol; now symmetry). exact Lm2. }
+        assert (Lt3 : lookup tag (g_tags g3) = Some (H j)).
+        { change (g_tags g3) with (t_tags (store_of g3)). rewrite St3. cbn [t_tags].
+          change (g_tags g2) with (t_tags (store_of g2)). rewrite St2. cbn [t_tags]. unfold insert. cbn [filter snd].
+          rewrite (str_eqb_neq (H j) od) by (intro X; apply Hcol; now symmetry). cbn [negb].
+          rewrite lookup_cons. now rewrite str_eqb_refl. }
+        exists g3, (n2 + 1), (t1 ++ t2 ++ t3). split; [reflexivity|]. split; [exact Hi3|]. split; [split; assumption|].
+        destruct (rfi_on_index g3 (n2 + 1) tag (H j) upd Hi3 ER Vt (conj Lt3 Lm3) Hp) as (n4 & t4 & E4).
+        unfold tag_schema_referrers. rewrite Vs. cbn [negb]. fold tag. rewrite E4. eauto.
+    - (* no index yet *)
+      destruct Hold as [-> ->]. subst l. cbn beta iota in *.
+      unfold apply_change. cbn [clean_refs existsb app length Nat.eqb negb].
+      change (gen_index [r]) with j. cbn [is_nil negb orb]. rewrite E2.
+      exists g2, n2, (t1 ++ t2). split; [reflexivity|]. split; [exact Hi2|]. split; [split; assumption|].
+      destruct (rfi_on_index g2 n2 tag (H j) upd Hi2 ER Vt (conj Lt2 Lm2) Hp) as (n3 & t3 & E3).
+      unfold tag_schema_referrers. rewrite Vs. cbn [negb]. fold tag. rewrite E3. eauto.
+  Qed.
+
   (* ---------- the digest-header hypothesis is exactly the failing mechanism ---------- *)
   (* Without Docker-Content-Digest, a HEAD for a TAG that exists is answered with an error:
      in every registry state, whatever the manifest. *)
@@ -1204,3 +1346,28 @@ Lemma all_profiles_covered :
   forallb (fun p => covered p RSUnknown && covered p RSSupported
                     && (p_referrers p || covered p RSUnsupported)) all_profiles = true.
 Proof. vm_compute. split; reflexivity. Qed.
+
+(* ---------- the referrers tag schema end to end, on a concrete registry without the API ---------- *)
+Definition hex_digit (n : N) : N := if n <? 10 then 48 + n else 87 + n.
+(* a toy hash: the hex of the last 32 bytes (enough to tell the few contents below apart) *)
+Definition toy_H (c : str) : str :=
+  b "sha256:" ++ firstn 64 (flat_map (fun x => [hex_digit (x / 16); hex_digit (x mod 16)]) (rev c) ++ repeat 48 64).
+Definition ts_m0 := b "{0}".
+Definition ts_m1 := b "{1}".
+Definition ts_d0 := mkDesc mt_oci_manifest (toy_H ts_m0) 3.
+Definition ts_d1 := mkDesc mt_oci_manifest (toy_H ts_m1) 3.
+Definition ts_subject (c : str) : option (option desc) := if str_eqb c ts_m1 then Some (Some ts_d0) else Some None.
+Definition ts_index_of (c : str) : option (list desc) := if str_eqb c (gen_index [ts_d1]) then Some [ts_d1] else Some [].
+Definition ts_profile := mkProfile true false true false false.     (* no Referrers API *)
+Definition ts_ops := [OPush ts_d0 ts_m0; OPreds ts_d0; OPush ts_d1 ts_m1; OPreds ts_d0; OResolve (ref_tag (toy_H ts_m0));
+                      ODelete ts_d1; OPreds ts_d0; OResolve (ref_tag (toy_H ts_m0))].
+
+Lemma tag_schema_example :
+  map snd (snd (run_history toy_H (fun s => Some s) ts_subject (b "app") (b "src") [] w_limit false ts_index_of
+                            ts_profile None [] RSUnknown ts_ops))
+  = [ROk; RDescs []; ROk; RDescs [ts_d1];
+     RDesc (mkDesc mt_index (toy_H (gen_index [ts_d1])) (len (gen_index [ts_d1])));
+     ROk; RDescs []; RErr ENotFound] /\
+  ts_index_of (gen_index [ts_d1]) = Some [ts_d1] /\ ts_subject (gen_index [ts_d1]) = Some None /\
+  gen_index [ts_d1] = b "{""schemaVersion"":2,""mediaType"":""application/vnd.oci.image.index.v1+json"",""manifests"":[{""mediaType"":""application/vnd.oci.image.manifest.v1+json"",""digest"":""sha256:7d317b0000000000000000000000000000000000000000000000000000000000"",""size"":3}]}".
+Proof. vm_compute. repeat split; reflexivity. Qed.
